@@ -141,16 +141,11 @@ fn subterm_bound(t: &asp::Term, vars: &[String], bound: &mut i128) {
     }
 }
 
-fn rule_terms(r: &asp::Rule) -> Vec<asp::Term> {
-    let mut ts = Vec::new();
-    if let Some(h) = r.head.terms() { ts.extend(h.iter().cloned()); }
-    for f in &r.body.formulas { ts.extend(f.terms()); }
-    ts
-}
+fn rule_terms(r: &asp::Rule) -> Vec<asp::Term> { crate::own::rule_terms(r) }
 
 /// the largest absolute integer a subterm of the rule takes under INNER assignments (at least 2)
 pub fn rule_window_bound(r: &asp::Rule) -> i128 {
-    let vars: Vec<String> = r.variables().into_iter().map(|v| v.0).collect();
+    let vars: Vec<String> = crate::own::rule_vars(r);
     let mut bound = 2i128;
     for t in rule_terms(r) { subterm_bound(&t, &vars, &mut bound); }
     bound
@@ -168,25 +163,28 @@ fn is_guarded(r: &asp::Rule) -> bool {
     let mut loose = BTreeSet::new();
     let mut inside = BTreeSet::new();
     let mut atom_terms: Vec<&asp::Term> = Vec::new();
-    if let Some(ts) = r.head.terms() { atom_terms.extend(ts.iter()); }
+    let head_ts = crate::own::head_terms(&r.head);
+    atom_terms.extend(head_ts.iter());
     for f in &r.body.formulas {
         match f {
             asp::AtomicFormula::Literal(l) => atom_terms.extend(l.atom.terms.iter()),
-            asp::AtomicFormula::Comparison(c) => { for v in c.variables() { inside.insert(v.0); } }
+            asp::AtomicFormula::Comparison(c) => { let mut vs = Vec::new(); crate::own::term_vars(&c.lhs, &mut vs); crate::own::term_vars(&c.rhs, &mut vs); inside.extend(vs); }
         }
     }
-    for t in atom_terms { match t { asp::Term::Variable(v) => { loose.insert(v.0.clone()); } t => { for v in t.variables() { inside.insert(v.0); } } } }
-    r.variables().iter().all(|v| guarded.contains(&v.0) || (loose.contains(&v.0) && !inside.contains(&v.0)))
+    for t in atom_terms { match t { asp::Term::Variable(v) => { loose.insert(v.0.clone()); } t => { let mut vs = Vec::new(); crate::own::term_vars(t, &mut vs); inside.extend(vs); } } }
+    crate::own::rule_vars(r).iter().all(|v| guarded.contains(v) || (loose.contains(v) && !inside.contains(v)))
 }
 
 fn universe(r: &asp::Rule) -> Vec<GroundAtom> {
     let inner = inner();
     let mut out = Vec::new();
-    for p in r.predicates() {
+    for (p_symbol, p_arity) in crate::own::rule_preds(r) {
+        struct P { symbol: String, arity: usize }
+        let p = P { symbol: p_symbol, arity: p_arity };
         if p.arity > 3 {
             // large arity: the tuples the literals of the rule themselves denote under INNER assignments, and each of them with
             // two positions exchanged (so that an interpretation can tell a permuted atom from the right one)
-            let vars: Vec<String> = r.variables().into_iter().map(|v| v.0).collect();
+            let vars: Vec<String> = crate::own::rule_vars(r);
             let mut lits: Vec<&asp::Atom> = Vec::new();
             if let asp::Head::Basic(a) | asp::Head::Choice(a) = &r.head { lits.push(a); }
             for f in &r.body.formulas { if let asp::AtomicFormula::Literal(l) = f { lits.push(&l.atom); } }
@@ -228,7 +226,7 @@ pub fn check_rule(text: &str, n_interp: usize, stats: &mut Stats, fails: &mut Ve
     let program = match asp::Program::from_str(text) { Ok(p) => p, Err(e) => { fails.push(Failure { property: "harness", input: text.into(), detail: format!("corpus rule does not parse: {e}") }); return; } };
     let rule = program.rules[0].clone();
     if !is_guarded(&rule) { fails.push(Failure { property: "harness", input: text.into(), detail: "corpus rule is not guarded".into() }); return; }
-    let vars: Vec<String> = rule.variables().into_iter().map(|v| v.0).collect();
+    let vars: Vec<String> = crate::own::rule_vars(&rule);
     let mut bound = 2i128;
     for t in rule_terms(&rule) { subterm_bound(&t, &vars, &mut bound); }
     let l = bound + 2;
@@ -300,7 +298,7 @@ pub fn check_program(text: &str, n_interp: usize, stats: &mut Stats, fails: &mut
     }
     for (i, rule) in program.rules.iter().enumerate() {
         if !is_guarded(rule) { fails.push(Failure { property: "harness", input: text.into(), detail: "corpus rule is not guarded".into() }); return; }
-        let vars: Vec<String> = rule.variables().into_iter().map(|v| v.0).collect();
+        let vars: Vec<String> = crate::own::rule_vars(&rule);
         let mut bound = 2i128;
         for t in rule_terms(rule) { subterm_bound(&t, &vars, &mut bound); }
         let l = bound + 2;
